@@ -48,6 +48,7 @@ type zzQuic struct {
 	mds      congestion.ByteCount
 	due      []monotime.Time // when each outstanding packet's acknowledgement arrives (simulator)
 	linkFree monotime.Time   // when the bottleneck is free again (simulator)
+	maxPkts  congestion.ByteCount    // the sender's maximum window, in datagrams
 	floor    congestion.PacketNumber // everything below has been pruned from the sampler
 	firstPN  congestion.PacketNumber
 	events   int
@@ -56,6 +57,7 @@ type zzQuic struct {
 func zzNewQuic(profile Profile) *zzQuic {
 	q := &zzQuic{clock: &zzClock{t: monotime.Time(1_000_000_000)}, rtt: &zzRTT{}, mds: congestion.InitialPacketSize, firstPN: -1}
 	q.b = NewBbrSender(q.clock, q.mds, profile)
+	q.maxPkts = congestion.MaxCongestionWindowPackets
 	q.b.SetRTTStatsProvider(q.rtt)
 	return q
 }
@@ -121,7 +123,7 @@ func (q *zzQuic) check(when string) {
 	b := q.b
 	w := b.GetCongestionWindow()
 	verifAssert(w >= 4*q.mds, "the congestion window is at least four datagrams")
-	verifAssert(w <= congestion.MaxCongestionWindowPackets*q.mds, "the congestion window is at most the maximum window")
+	verifAssert(w <= q.maxPkts*q.mds, "the congestion window is at most the maximum window")
 	verifAssert(b.bandwidthForPacer() >= minBps, "the pacing bandwidth is at least 64 KB/s")
 	// bookkeeping: one slot per packet number between the pruning floor (or the
 	// first packet ever sent) and the last packet sent
@@ -196,6 +198,11 @@ func (q *zzQuic) prefix(which int) {
 		}
 		q.advance(11 * time.Second)
 		q.simulate(24, perRTT, rtt, true)
+	case 7: // a sender built with a small maximum window (40 datagrams), in STARTUP, one datagram short of it
+		q.b = newBbrSender(q.clock, q.mds, initialCongestionWindowPackets*q.mds, 40*q.mds, q.b.profile)
+		q.b.SetRTTStatsProvider(q.rtt)
+		q.maxPkts = 40
+		q.simulate(7, perRTT, rtt, true)
 	case 6: // a slow path (one packet per 100 ms): the measured rate is below the pacer's floor
 		q.simulate(520, 1, 100*time.Millisecond, true)
 	case 5: // a loss at full flight: recovery (CONSERVATION, then GROWTH after a round)
@@ -244,14 +251,9 @@ func (q *zzQuic) symbolicEvent(i int) {
 // outputs sane and never panics. The starting points are produced by driving
 // the real sender concretely, so every state explored is reachable.
 //
-//verif:harness kind=api replay=interp fp=abstract mode=int nomodel=bdpFromRttAndBandwidth unwind=400 preempt=0 bound=7-concrete-prefixes,every-gain-cycle-offset,standard(quick)/3-profiles(thorough),symbolic-suffix=1(quick)/2(thorough)-events,sizes<=mds,delays<=2s,gaps<=2
+//verif:harness kind=api replay=interp fp=abstract mode=int nomodel=bdpFromRttAndBandwidth unwind=400 preempt=0 bound=prefixes-0..3,every-gain-cycle-offset,standard(quick)/3-profiles(thorough),symbolic-suffix=1(quick)/2(thorough)-events,sizes<=mds,delays<=2s,gaps<=2
 func ZZ_C12_EventsFromReachableStates() {
-	prof := ProfileStandard
-	if verifThorough() {
-		prof = zzProfiles[verifChoice("profile", 3)]
-	}
-	q := zzNewQuic(prof)
-	q.prefix(verifChoice("prefix", 7))
+	q := zzReach(0)
 	// which starting points were actually reached (vacuity guard)
 	if q.b.isAtFullBandwidth {
 		verifCover("past-startup")
@@ -259,15 +261,47 @@ func ZZ_C12_EventsFromReachableStates() {
 	if q.b.InRecovery() {
 		verifCover("in-recovery")
 	}
+	if q.b.mode == bbrModeProbeBw {
+		verifCover("probe-bw")
+	}
+	if q.b.mode == bbrModeStartup && len(q.out) > 0 {
+		verifCover("in-startup")
+	}
+	zzSuffix(q)
+}
+
+// The second half of the starting points (PROBE_RTT after idling, recovery at
+// full flight, slow path, small maximum window).
+//
+//verif:harness kind=api replay=interp fp=abstract mode=int nomodel=bdpFromRttAndBandwidth unwind=400 preempt=0 bound=prefixes-4..7,every-gain-cycle-offset,standard(quick)/3-profiles(thorough),symbolic-suffix=1(quick)/2(thorough)-events,sizes<=mds,delays<=2s,gaps<=2
+func ZZ_C12_EventsFromReachableStatesB() {
+	q := zzReach(4)
 	if q.b.mode == bbrModeProbeRtt {
 		verifCover("probe-rtt")
 	}
-	if q.b.mode == bbrModeProbeBw {
-		verifCover("probe-bw")
+	if q.b.InRecovery() {
+		verifCover("in-recovery-at-full-flight")
+	}
+	if q.maxPkts == 40 && q.b.GetCongestionWindow() >= 38*q.mds && q.b.mode == bbrModeStartup {
+		verifCover("near-maximum-in-startup")
 	}
 	if q.b.pacingRate != 0 && q.b.pacingRate < Bandwidth(8*minBps) {
 		verifCover("rate-below-floor")
 	}
+	zzSuffix(q)
+}
+
+func zzReach(first int) *zzQuic {
+	prof := ProfileStandard
+	if verifThorough() {
+		prof = zzProfiles[verifChoice("profile", 3)]
+	}
+	q := zzNewQuic(prof)
+	q.prefix(first + verifChoice("prefix", 4))
+	return q
+}
+
+func zzSuffix(q *zzQuic) {
 	n := 1
 	if verifThorough() {
 		n = 2
